@@ -60,6 +60,15 @@ def run(tier, seed):
     for nbody in (cd.CAP - 1, cd.CAP, cd.CAP + 1, cd.CAP + 40, 3 * cd.CAP):
         short += [b"20 text/plain\r\n" + b"b" * nbody, b"20 \r\n" + b"b" * nbody, b"21 application/octet-stream\r\n" + bytes(range(256))[:nbody % 256] + b"c" * (nbody - nbody % 256),
                   b"51 gone\r\n" + b"b" * nbody]
+    # every charset label of the list (and labels that make the codec lookup fail in unusual ways: embedded NUL -> ValueError,
+    # over-long, non-ASCII, trailing space) on a 2x text response, with an empty, a valid and an undecodable body
+    labels = sorted(set(CHARSETS + ["utf-8\x00", "\x00", "a\x00b", "utf-8 ", "utf_8", "U8", "x" * 300, "utf-\u00e9", "utf-8\t", "-", "."]))
+    for cs in labels:
+        for mime in ("text/gemini", ""):
+            for body in ((b"", b"hello", b"\xff\xfe") if tier != "quick" else (b"hello",)):
+                short.append(("20 %s; charset=%s" % (mime, cs)).encode("utf-8") + b"\r\n" + body)
+    # an empty media type (text/gemini by default) and a text type with bodies that are not UTF-8
+    short += [b"20 \r\n\xff\xfe\x00raw", b"20\r\n\xff\xfe", b"20 text/plain\r\n\xe9t\xe9", b"20 text/gemini\r\n\x80"]
     streams = short + [gen_stream(rng) for _ in range(120 if tier == "quick" else 1500)]
     cases = []
     for s in streams:
@@ -70,15 +79,18 @@ def run(tier, seed):
         for i in range(0, len(s) + 1, step):
             cases.append((s[:i], [s[:i]] if i else [], None))
             cases.append((s[:i], [s[:i]] if i else [], "ConnectionResetError"))
+    # raw mode (decode_bodies=False, what the reverse proxy uses): the body must come back as the bytes received, whatever the
+    # media type and charset say - every fourth case, and every case of the short / corpus streams delivered whole
+    short_set = set(short)
+    modes = [not (i % 4 == 3 or (len(c[1]) == 1 and c[2] is None and c[0] in short_set and i % 2 == 1)) for i, c in enumerate(cases)]
     async def go():
         out = []
-        for stream, chunks, exc in cases:
-            decode_body = True
+        for (stream, chunks, exc), decode_body in zip(cases, modes):
             out.append(await cd.replay("gemini", ["gemini://h/"], decode_body, chunks, exc))
         return out
     impl = asyncio.run(go())
     mcases, iobs, mon = [], [], []
-    for (stream, chunks, exc), (fo, per_event, events, delivered) in zip(cases, impl):
+    for (stream, chunks, exc), (fo, per_event, events, delivered), decode_body in zip(cases, impl, modes):
         header = stream.split(b"\r\n", 1)[0]
         try: meta = header.decode("utf-8").partition(" ")[2]
         except UnicodeDecodeError: meta = ""
@@ -87,9 +99,10 @@ def run(tier, seed):
         db = delivered.split(b"\r\n", 1)[1] if b"\r\n" in delivered else b""
         bodies.add(db)
         table = cd.decode_table(meta, sorted(bodies))
-        mcases.append(("client", enc([[b"gemini://h/\r\n"], True, True, cd.CAP, table, events])))
+        mcases.append(("client", enc([[b"gemini://h/\r\n"], True, decode_body, cd.CAP, table, events])))
         iobs.append(enc([fo, per_event]))
-        mon.append(("C13.ok", enc([True, cd.CAP, table, stream, [exc] if exc else [], fo])))
+        mon.append(("C13.ok", enc([decode_body, cd.CAP, table, stream, [exc] if exc else [], fo])))
+        res.count("mode:" + ("decoded" if decode_body else "raw"))
         res.evaluations += 1
         res.count("outcome:" + (fo[0] if fo[0] != "err" else "err:" + fo[1]))
         res.nontriv((stream, tuple(chunks), exc))
